@@ -2,6 +2,9 @@ import Ktm.HyperbandSched
 import Ktm.Grid
 import Ktm.Random
 import Ktm.Search
+import Ktm.CoreCount
+import Ktm.Props.C02
+import Ktm.GridReach
 /-! # C11 — no livelock, no early stop: IDLE only while work is in flight; STOPPED is justified
 
 Model: `Core.create` over an algorithm record; the three algorithms that can answer IDLE or STOPPED on
@@ -129,6 +132,47 @@ theorem random_stop_justified {W : Type} [DecidableEq W] (cands : Nat → List W
   · cases hp
   · rename_i hnone
     exact ⟨hnone, RandomAlg.pick_bounded cands o c⟩
+
+/-- **bounded number of trial runs**: for every algorithm, every request list from any number of tuners and
+every outcome pattern (all trials failing included), the number of RUNNING answers handed to tuners that held
+nothing is at most (number of distinct trials) × (max_retries_per_trial + 1) … -/
+theorem runs_bounded (alg : Alg V A) (a0 : A) (maxTrials : Option Nat) (maxRetries maxConsec : Nat) (ops : List Op) :
+    issuedBy alg (init (V := V) a0 maxTrials maxRetries maxConsec) ops ≤
+      (run alg (init (V := V) a0 maxTrials maxRetries maxConsec) ops).trials.length * (maxRetries + 1) := by
+  have h := Core.runs_bounded alg ops _ (inv_init a0 maxTrials maxRetries maxConsec) (kinv_init a0 maxTrials maxRetries maxConsec)
+  have hmr : (init (V := V) a0 maxTrials maxRetries maxConsec).maxRetries = maxRetries := rfl
+  rw [hmr] at h
+  omega
+
+/-- … hence at most `N · (max_retries + 1)` runs under a trial budget `N` (C02 bounds the number of trials) -/
+theorem runs_bounded_budget (alg : Alg V A) (a0 : A) (N maxRetries maxConsec : Nat) (ops : List Op) :
+    issuedBy alg (init (V := V) a0 (some N) maxRetries maxConsec) ops ≤ N * (maxRetries + 1) := by
+  have h := runs_bounded alg a0 (some N) maxRetries maxConsec ops
+  have hb := Props.C02.budget_from_init alg a0 N maxRetries maxConsec ops
+  have := Nat.mul_le_mul_right (maxRetries + 1) hb
+  omega
+
+/-- … and at most `(number of active combinations) · (max_retries + 1)` runs for grid search without a trial
+limit: the finite grid is the budget -/
+theorem grid_runs_bounded (space : List GridSucc.GHP) (hs : Grid.SpaceOK space) (ops : List Op) :
+    issuedBy Grid.alg (Grid.init space) ops ≤ (GridSucc.enum space []).length * ((Grid.init space).maxRetries + 1) := by
+  have h := Core.runs_bounded Grid.alg ops (Grid.init space) (by
+      have := inv_init (V := GridSucc.Env) ({ space := space, ordered := [], queue := [] } : Grid.St) none 0 1000
+      exact this) (by intro i t ht; simp [Grid.init, Core.init] at ht)
+  have hg := Grid.ginv_reachable (Grid.init space) hs (Grid.ginv_init space) ops
+  have hlen : (run Grid.alg (Grid.init space) ops).trials.length ≤ (GridSucc.enum space []).length := by
+    cases hn : (run Grid.alg (Grid.init space) ops).trials.length with
+    | zero => omega
+    | succ k =>
+      have hk : k < (run Grid.alg (Grid.init space) ops).trials.length := by omega
+      have := hg.1.vals k _ (List.getElem?_eq_getElem hk)
+      rw [hg.2] at this
+      have := (List.getElem?_eq_some_iff.mp this).1
+      have hsp : (Grid.init space).alg.space = space := rfl
+      rw [hsp] at this
+      omega
+  have := Nat.mul_le_mul_right ((Grid.init space).maxRetries + 1) hlen
+  omega
 
 /-- the search loop of one tuner over any such oracle ends each trial it starts and terminates with
 STOPPED, a fatal error, an interrupt or the abort — within its fuel (C19's `search_trace`) -/
